@@ -13,7 +13,7 @@ ID = "C03"
 COQ_IMPORT = "Corr.CNodes"
 COQ_CASE_TYPE = "g_case"
 COQ_CHECK = "g_check"
-THEOREMS = []
+THEOREMS = ["c03_root", "c03_nothing_else", "c03_type_tag", "c03_param_dtype_shape", "c03_edges"]
 PROOF_FILES = ["Proofs/SerialProofs.v"]
 RULE = ("the C01 graph generator; each written file is traversed with raw h5py (names, group/dataset kind, string "
         "dtype info, dtype, shape, value, attribute count) and compared (a) with the Coq model of nir.write and (b) with "
